@@ -55,7 +55,7 @@ def gen_case(rng, kind):
         cols = cols[::-1]
     spec = gf.frame_spec(rng, cols, n, gf.INDEX_KINDS[int(rng.integers(len(gf.INDEX_KINDS)))])
     spec["geometry"] = "g1"
-    return {"spec": spec, "kind": kind, "parts": [int(rng.integers(1, 6)), int(rng.integers(1, 6))],
+    return {"spec": spec, "kind": kind, "parts": [int(rng.integers(1, 6)), int(rng.integers(1, 6)) if rng.random() < 0.8 else 12],
             "filter": bool(rng.random() < 0.35), "touch_cache": bool(rng.random() < 0.6), "presort": bool(rng.random() < 0.2),
             "repack": int(rng.choice([3, 7, 12])) if rng.random() < 0.2 else 0,
             "npartitions": int(rng.integers(1, 13)) if rng.random() < 0.4 else int(rng.integers(1, max(2, min(12, n // 3)) + 1)), "p": int(rng.choice([1, 2, 6, 10, 15, 20]))}
@@ -156,6 +156,9 @@ def check_case(ctx, case):
                                                        "extra": extra}, case=case)
             continue
         flat = [v for idx in all_idx for v in idx]
+        if flat and (min(flat) < 0 or max(flat) >= 4 ** p):
+            ctx.violation("index", "pack_partitions:index-outside-curve-range", w, expected=[0, 4 ** p - 1],
+                          observed=[int(min(flat)), int(max(flat))], case=case)
         if any(a > b for a, b in zip(flat, flat[1:])):
             ctx.violation("order", "pack_partitions:not-sorted", w, observed=flat[:40], case=case)
         if exp is not None:
